@@ -367,8 +367,11 @@ fn csv_device_full(report: &mut Report, seed: u64, idx: u64) {
         report.inconclusive("no /dev/full on this system");
         return;
     }
-    let num_chains = rng.int_range(1, 4) as u64;
-    let faulty = rng.below(num_chains);
+    // half of the cases: several chains and the *first* one fails while the last is healthy (an error that is
+    // overwritten by a later healthy chain when the per-chain results are combined stays visible only there)
+    let first_fails = (idx / 2) % 2 == 0;
+    let num_chains = if first_fails { rng.int_range(2, 4) as u64 } else { rng.int_range(1, 4) as u64 };
+    let faulty = if first_fails { 0 } else { rng.below(num_chains) };
     let long = idx % 2 == 1;
     let (num_tune, num_draws) = if long { (20u64, 600u64) } else { (rng.int_range(0, 10) as u64, rng.int_range(1, 12) as u64) };
     let dim = if long { 12 } else { 2 };
@@ -448,7 +451,7 @@ pub fn run(args: &Args, report: &mut Report) {
         return;
     }
     // a real backend whose device fails
-    for i in 0..report.size(12, 200) {
+    for i in 0..report.size(24, 400) {
         csv_device_full(report, seed, i);
     }
     let n = report.size(360, 40_000);
